@@ -191,3 +191,37 @@ class GenError(Exception):
 
     def signature(self):
         return f"{self.phase}:{type(self.exc).__name__}" if self.phase != "compile" else "compile-error"
+
+
+def make_scheme_mod(backend: str, ode, model, alias: str, remove_unused=False, extra_schemes=(), **scheme_kwargs):
+    """module = get_code(...) (with extra_schemes) + CodeGenerator.scheme(get_scheme(alias), **scheme_kwargs):
+    the route by which every accepted scheme name (euler, rush_larsen, ...) is reachable."""
+    import warnings
+    from gotranx.schemes import get_scheme
+
+    try:
+        with warnings.catch_warnings():
+            warnings.simplefilter("ignore")
+            f = get_scheme(alias)
+            if backend == "C":
+                from gotranx.codegen.c import CCodeGenerator, Format
+
+                cg = CCodeGenerator(ode, format=Format.none, remove_unused=remove_unused)
+                base = B.c_code(ode, schemes=list(extra_schemes) or None, remove_unused=remove_unused, delta=scheme_kwargs.get("delta", 1e-8))
+            else:
+                from gotranx.codegen.python import PythonCodeGenerator, Format
+                from gotranx.codegen.jax import JaxCodeGenerator
+
+                cg = (PythonCodeGenerator if backend == "numpy" else JaxCodeGenerator)(ode, format=Format.none, remove_unused=remove_unused)
+                base = B.py_code(ode, schemes=list(extra_schemes) or None, backend=backend, remove_unused=remove_unused, delta=scheme_kwargs.get("delta", 1e-8))
+            code = base + "\n" + cg.scheme(f, **scheme_kwargs)
+    except Exception as ex:
+        raise GenError("codegen", ex, None)
+    try:
+        if backend == "C":
+            return CMod(code, model_names(model))
+        return JaxMod(code) if backend == "jax" else PyMod(code)
+    except B.CompileError as ex:
+        raise GenError("compile", ex, code)
+    except Exception as ex:
+        raise GenError("import", ex, code)
